@@ -218,7 +218,9 @@ NOTES["C16"] = dict(
     text=("The identities of the property are evaluated on the real outputs of fit_candidates and jacobi_prolongation (sequential and distributed, "
           "arbitrary aggregations incl. singletons, aggregates spanning ranks and unaggregated vertices): T supported on its aggregates, unit-norm "
           "columns, T R = B, and P = (I - omega D^-1 A)^k T recomputed densely; theorems in Props/C16.lean (as proved at this commit) plus the "
-          "SpGEMM/subtract theorems of C06/C07 on which the smoothing identity rests."),
+          "SpGEMM/subtract theorems of C06/C07 on which the smoothing identity rests; Props/C16Par.lean: the ranks' partial sums of squares over "
+          "their own members of an aggregate add up to the global aggregate norm for every partition of the vertices (sqNorm_partition, "
+          "sqNorm_partition_indep)."),
     note="Partial: rounding (1e-10 relative); one candidate per aggregate.",
     technique="Lean 4 proof of the algebraic identities; dense re-evaluation of the real outputs",
 )
